@@ -134,6 +134,12 @@ M = [
  ("TXT record first", 'simple-mdns/src/instance_information.rs', "        records.push(hashmap_to_txt(service_name, self.attributes, ttl)?);\n\n        Ok(records)", "        records.insert(0, hashmap_to_txt(service_name, self.attributes, ttl)?);\n\n        Ok(records)", 'untied:mdns.into_records'),
  ("ports before addresses", 'simple-mdns/src/instance_information.rs', "        for ip_address in self.ip_addresses {\n            records.push(ip_addr_to_resource_record(service_name, ip_address, ttl));\n        }\n\n        for port in self.ports {\n            records.push(port_to_srv_record(service_name, port, ttl));\n        }\n", "        for port in self.ports {\n            records.push(port_to_srv_record(service_name, port, ttl));\n        }\n\n        for ip_address in self.ip_addresses {\n            records.push(ip_addr_to_resource_record(service_name, ip_address, ttl));\n        }\n", 'fail:into_records_source'),
  ("SRV target is the root", 'simple-mdns/src/conversion_utils.rs', "            target: name.clone(),", "            target: Name::new_unchecked(\"\"),", 'untied:mdns.into_records'),
+ ("Name::parse counts the root octet from the start", D + 'name.rs', "        let mut name_size = 0usize;", "        let mut name_size = 1usize;", 'fail:name_parse_source'),
+ ("Name::parse accepts 256 octets", D + 'name.rs', "            if name_size >= MAX_NAME_LENGTH {", "            if name_size > MAX_NAME_LENGTH {", 'fail:name_parse_source'),
+ ("Name::parse pointer bound off by one", D + 'name.rs', "                    if pointer_position + 2 > data.len() {", "                    if pointer_position + 1 > data.len() {", 'fail:name_parse_source'),
+ ("Name::parse allows a pointer to itself", D + 'name.rs', "                    if pointer >= pointer_position {", "                    if pointer > pointer_position {", 'fail:name_parse_source'),
+ ("Name::parse label of 64 octets", D + 'name.rs', "                    if len as usize > MAX_LABEL_LENGTH {", "                    if len as usize >= MAX_LABEL_LENGTH + 2 {", 'untied:name.parse'),
+ ("Name::parse treats every octet above 63 as a pointer", D + 'name.rs', "                len if len & POINTER_MASK == POINTER_MASK => {", "                len if len as usize > MAX_LABEL_LENGTH => {", 'untied:name.parse'),
  ("mdns refresh in millis", 'simple-mdns/src/resource_record_manager.rs', 'added + Duration::from_secs(ttl / 2)', 'added + Duration::from_millis(ttl / 2)', 'untied:mdns.expiration'),
 ]
 
